@@ -27,7 +27,12 @@ DUR_BAD = {"duration wraps to a small value": "144115188075856237d", "duration w
 B64_BAD = {"base64 bad padding": "!binary:AQID=", "base64 length 1 mod 4": "!binary:AQIDB", "base64 only padding": "!binary:=", "base64 empty": "!binary:", "raw unknown command": "!foo"}
 ANY_BAD = {"wrong type number": 12345, "wrong type list": ["x"], "wrong type map": {"a": 1}, "wrong type bool": True, "empty string": "", "string 1 MiB": "A" * (1 << 20),
            "string with NUL": "a\u0000b", "string newline": "a\nb"}
-IP_BAD = {"ip octet 256": "1.2.3.256", "ip octet -1": "1.2.3.-1", "ip octet a": "1.2.3.a", "ip 5 octets": "1.2.3.4.5", "ip empty": ""}
+IP_BAD = {"ip octet 256": "1.2.3.256", "ip octet -1": "1.2.3.-1", "ip octet a": "1.2.3.a", "ip 5 octets": "1.2.3.4.5", "ip empty": "",
+          # other spellings an address parser may or may not take (any outcome but a crash is fine)
+          "ip v6 loopback": "::1", "ip v6": "2001:db8::1", "ip v6 link-local with zone": "fe80::1%eth0", "ip v4-mapped v6": "::ffff:1.2.3.4", "ip v6 unspecified": "::",
+          "ip 3 octets": "1.2.3", "ip leading zeros": "01.02.03.004", "ip blank in front": " 1.2.3.4", "ip blank behind": "1.2.3.4 ", "ip empty octet": "1..3.4",
+          "ip with prefix length": "1.2.3.4/24", "ip hex octet": "0x1.2.3.4", "ip octet 30 digits": "1.2.3." + "9" * 30, "ip plus sign": "+1.2.3.4", "ip fullwidth digit": "\uff11.2.3.4",
+          "ip trailing dot": "1.2.3.4.", "ip single number": "16909060"}
 
 
 def slots(obj, path=()):
